@@ -259,6 +259,8 @@ spifconf_put_var(spif_charptr_t var, spif_charptr_t val)
         D_CONF(("Comparing at %10p:  \"%s\" -> \"%s\", n == %d\n", v, v->var, v->value, n));
         if (n == 0) {
             FREE(v->value);
+            /* The entry keeps its own copy of the name; ours is not needed. */
+            FREE(var);
             if (val) {
                 v->value = val;
                 D_CONF(("Variable already defined.  Replacing its value with \"%s\"\n", v->value));
@@ -278,6 +280,7 @@ spifconf_put_var(spif_charptr_t var, spif_charptr_t val)
     }
     if (!val) {
         D_CONF(("Empty value given for non-existant variable \"%s\".  Aborting.\n", var));
+        FREE(var);
         return;
     }
     D_CONF(("Inserting new var/val pair between \"%s\" and \"%s\"\n",
